@@ -99,7 +99,7 @@ def judge(case, impl_res, ans):
         if ans['ok']['spec'] != m:
             return 'MACHINERY: model differs from its Lean spec (contradicts the theorem)'
         if sorted(ok) != m:      # dict: key order is not part of the property
-            return 'SPEC: groups differ from {cluster: increasing member spikes}'
+            return 'SPEC: groups differ from {cluster: its spike indices, or the supplied ids of its spikes, in increasing position order}'
         return None
     if op == 'gmean':
         # the quotients are computed by the Lean model (`groupedMeanQ`, exact); the real code performs one
